@@ -17,7 +17,7 @@ from .. import wire
 from ..core import InfraError, shrink
 
 NAN = float("nan")
-ENCS = ("rle", "dict", "sparse", "const", "func")
+ENCS = ("rle", "dict", "sparse", "const", "func", "funcs")
 FUNCS = ("double", "upper", "not", "id")  # dtype-preserving: also run on the Lean model
 # dtype-changing functions on the stored values (int -> float, narrower -> wider text, int -> text,
 # bool -> int): the expansion must follow the dtype of the *mapped* values.  Oracle only.
@@ -481,7 +481,11 @@ def ops_valid(case, xs):
     for op in ops:
         if not isinstance(op, str):
             return False
-        if op in ("mat", "decoy", "flat", "copy"):
+        if op in ("mat", "decoy", "flat", "copy", "schema"):
+            continue
+        if op == "pickle":
+            if enc == "func":  # (the harness's binding is a closure: not picklable, nothing of orso's)
+                return False
             continue
         if op.startswith("len:"):
             if enc not in ("const", "func") or not op[4:].isdigit() or int(op[4:]) > 200000:
@@ -514,6 +518,13 @@ def has_model(case):
     vals = [case.get("value"), case.get("default")] + (list(case["values"]) if isinstance(case.get("values"), list) else [])
     if any(isinstance(v, str) and v.endswith("\x00") for v in vals):
         return False  # text ending in NUL is outside the model's element kinds (`Enc.endsNul`, open finding C09-K03)
+    if case["enc"] == "sparse" and isinstance(case.get("default"), float) and isinstance(case.get("values"), list) \
+            and any(v is None for v in case["values"]) \
+            and any(type(v) is int and abs(v) > 2**53 for v in case["values"]):
+        # integers beyond 2**53 next to nulls are held as Python objects, and Python compares an int with a float
+        # default *exactly* (2**63 - 1 != 2.0**63); the model's scan compares after conversion to float64, which
+        # is what numpy does for a typed int64 array (C09-K01).  The exact comparison is lossless: oracle only.
+        return False
     return case["enc"] in ("const", "func") or len(values_of(case)) <= MODEL_MAX_LEN
 
 
@@ -587,7 +598,8 @@ def build_column(schema, case, calls=None):
         def binding(*args):
             if calls is not None:
                 calls.append(args)
-            if cfg is not None and list(args) != list(cfg):
+            # (a column declared without a configuration calls its binding with no arguments)
+            if list(args) != (list(cfg) if cfg is not None else []):
                 return "<binding called with other arguments than the configuration>"
             return v
 
@@ -612,6 +624,23 @@ def build_decoy(schema, case):
         if enc == "sparse":
             c2["default"] = xs[-1] if xs else 0
     build_column(schema, c2).materialize()
+    # ... and one of every *other* class over the same data (state shared between the classes: a module-level
+    # memo keyed by length / dtype / content would be filled here)
+    xs = original(case)[:40]
+    if any(isinstance(x, bytes) for x in xs):
+        return
+    for other in ("rle", "dict", "sparse", "const", "func"):
+        if other == enc:
+            continue
+        if other in ("const", "func"):
+            c3 = {"enc": other, "value": xs[-1] if xs else None, "length": len(xs) + 1}
+        else:
+            if other == "dict" and None in xs and len(xs) >= 2:
+                continue
+            c3 = {"enc": other, "values": list(reversed(xs))}
+            if other == "sparse":
+                c3["default"] = xs[0] if xs else None
+        build_column(schema, c3).materialize()
 
 
 def run_impl(case):
@@ -676,6 +705,26 @@ def run_impl(case):
                             old.values[...] = old.values[::-1].copy()
                         except (TypeError, ValueError):
                             pass
+                elif op == "schema":
+                    # the column travels inside relation schemas (added to another schema, looked up by name,
+                    # listed, written out as a dictionary, popped): what comes out is expanded from then on
+                    from orso.types import OrsoTypes
+
+                    left = schema.RelationSchema(name="l", columns=[schema.FlatColumn(name="a", type=OrsoTypes.INTEGER)])
+                    right = schema.RelationSchema(name="r", columns=[schema.ConstantColumn(name="k", value=1, length=2), col])
+                    both = left + right
+                    both.to_dict()
+                    both.all_column_names()
+                    if both.find_column("c") is None or both.column("c") is None:
+                        raise LookupError("the column is not found in the schema it was added to")
+                    col = both.pop_column("c")
+                    if col is None:
+                        raise LookupError("the column cannot be taken out of the schema it was added to")
+                elif op == "pickle":
+                    import pickle
+
+                    col, old = pickle.loads(pickle.dumps(col)), col
+                    old.materialize()
                 elif op.startswith("len:"):
                     col.length = int(op[4:])
                 else:
@@ -954,6 +1003,8 @@ def type_ok(c, vs):
 
 
 def valid_case(c):
+    if isinstance(c, dict) and c.get("enc") == "funcs":
+        return valid_funcs(c)
     if not isinstance(c, dict) or c.get("enc") not in ENCS or not set(c) <= KEYS:
         return False
     f = c.get("f")
@@ -1011,6 +1062,566 @@ def valid_case(c):
     return f is None or (f in narrow_funcs(cont) and f_applicable(f, vs))
 
 
+# --------------------------------------------------------------------------- replays that stand alone
+#
+# A failure may depend on state an *earlier case of this process* left behind in the implementation (a
+# module-level memo, a class attribute).  Such a case does not fail when replayed alone.  So, when the oracle
+# fails -- never on a quiet tree -- the case is confirmed in a fresh interpreter: the shrunk case if it
+# reproduces there, else the unshrunk one (shrunk again with every attempt in a fresh interpreter, a small
+# budget), else the case is reported as found with a remark in the detail.
+
+_FRESH_SNIPPET = r"""
+import json, sys, warnings
+sys.path.insert(0, sys.argv[1]); sys.path.insert(1, sys.argv[2])
+from harness import core
+from harness.props import c09
+case = core.unjson(json.loads(sys.stdin.read()))
+if not c09.valid_case(case):
+    print(json.dumps({"clause": None, "invalid": True})); sys.exit(0)
+try:
+    if case["enc"] == "funcs":
+        full = c09.oracle_funcs(case, c09.run_funcs(case))
+    else:
+        full = c09.oracle(case, c09.run_impl(case))
+except core.InfraError as e:
+    print(json.dumps({"clause": None, "infra": str(e)[:200]})); sys.exit(0)
+print(json.dumps({"clause": c09._norm(full)}))
+"""
+
+
+def fails_fresh(case, clause):
+    """Does `case` fail with the (normalised) clause in a fresh interpreter?  None when that cannot be told."""
+    import json
+    import os
+    import subprocess
+    import sys
+
+    from .. import core
+
+    try:
+        p = subprocess.run([sys.executable, "-c", _FRESH_SNIPPET, core.REPO, core.VERIF], input=json.dumps(core._jsonable(case)),
+                           capture_output=True, text=True, timeout=120, env=dict(os.environ, PYTHONHASHSEED="0"))
+        return json.loads(p.stdout.strip().split("\n")[-1]).get("clause") == _norm(clause)
+    except Exception:
+        return None
+
+
+def reset_impl():
+    """Forget whatever earlier cases left behind in the implementation's modules (module-level memos, class
+    attributes): reload them.  Only called once the oracle has failed -- never on a quiet tree."""
+    import importlib
+    import sys
+
+    try:
+        for name in ("orso.tools", "orso.schema"):
+            if name in sys.modules:
+                importlib.reload(sys.modules[name])
+        return True
+    except Exception:
+        return False
+
+
+def on_clean_state(ctx, c, clause, out, rerun):
+    """A failure is first re-examined on a clean implementation state.  Returns (clause, out) to go on with, or
+    None when the case fails only with the state earlier cases left behind: it is then put aside (reported at the
+    end of the run if nothing that stands alone shows the same clause) and the search goes on, on the clean state,
+    for a history that contains its own cause."""
+    if ctx.replaying or not reset_impl():
+        return clause, out
+    out2, clause2 = rerun(c)
+    if _norm(clause2) == _norm(clause):
+        return clause2, out2
+    pend = ctx.__dict__.setdefault("c09_pending", {})
+    pend.setdefault(_norm(clause), (c, clause, out))
+    ctx.hit("failure-needs-state-of-earlier-cases")
+    if clause2 is None:
+        return None
+    return clause2, out2
+
+
+NOT_ALONE = ("fails only after earlier cases of the same run (state shared between column objects outlives them); "
+             "not reproduced when replayed alone")
+
+
+def flush_pending(ctx):
+    for key, (c, clause, out) in list(ctx.__dict__.get("c09_pending", {}).items()):
+        if not already_reported(ctx, clause):
+            detail = clause.split(" :: ")[1] if " :: " in clause else None
+            ctx.fail(c, _norm(clause), impl=out, model=None, detail="%s [%s]" % (detail, NOT_ALONE))
+    ctx.__dict__["c09_pending"] = {}
+
+
+def already_reported(ctx, clause):
+    return not ctx.replaying and any(v.get("sig") == _norm(clause) for v in ctx.violations)
+
+
+def standalone(ctx, c, c_min, clause):
+    """(case to report, remark or None): a case that fails when replayed alone, if there is one."""
+    if ctx.replaying or getattr(ctx, "c09_fresh_checks", 0) >= 8:
+        return c_min, None
+    try:
+        full = (oracle_funcs(c_min, run_funcs(c_min)) if c_min["enc"] == "funcs" else oracle(c_min, run_impl(c_min))) or clause
+    except InfraError:
+        full = clause
+    failure = {"clause": _norm(full), "detail": full.split(" :: ")[1] if " :: " in full else None}
+    if any(k.get("status") == "open" and KNOWN_PREDICATES.get(k.get("predicate"), lambda *_: False)(c_min, failure) for k in ctx.known):
+        return c_min, None  # (an open finding: suppressed by its predicate, nothing to confirm)
+    ctx.c09_fresh_checks = getattr(ctx, "c09_fresh_checks", 0) + 1
+    r = fails_fresh(c_min, clause)
+    if r or r is None:
+        return c_min, None
+    if c_min is not c and fails_fresh(c, clause):
+        return shrink(c, lambda c2: valid_case(c2) and bool(fails_fresh(c2, clause)), budget=30), None
+    return c_min, NOT_ALONE
+
+
+# --------------------------------------------------------------------------- families of function columns
+#
+# `{"enc": "funcs", "uses": [...]}`: several function columns in one history -- column objects that share a
+# binding, a configuration or both, the same object expanded again after its attributes were reassigned,
+# bindings that read a cell which changes between expansions.  Every expansion is judged against calling
+# *that* binding with *that* column's configuration at *that* moment: whatever an earlier expansion (of this
+# or of another column) computed must not show.  Configurations that are `==` but not identical
+# (1 / 1.0 / True, 0 / 0.0 / -0.0 / False, 2**53 / 2.0**53), that collide in hash (-1 / -2), that look alike as
+# text (1 / '1') and unhashable ones (lists, dictionaries) are the point of the scope.
+#
+# One use = {"b": binding name, "cfg": [arguments], "length": n} (a new column object), optionally
+#   "col": k   -- instead of a new object take the column object of use k and reassign what the use names
+#                 (`configuration`, `binding`, `length`; keys not given keep their value)
+#   "set": v   -- before the expansion the cell read by the binding `cell` gets the value v
+#   "grow": v  -- before the expansion the *first argument of the column's configuration* (a list, the very
+#                 object the column holds) gets v appended: the configuration object is the same, its content not
+
+BINDINGS = ("repr", "first", "triple", "kind", "count", "cell")
+
+
+def bind_value(name, args, cell):
+    """The bindings of the family scope (all pure but `cell`, all sensitive to the type of their arguments)."""
+    if name == "repr":
+        return repr(tuple(args))
+    if name == "first":
+        return args[0]
+    if name == "triple":
+        return args[0] * 3
+    if name == "kind":
+        return type(args[0]).__name__
+    if name == "count":
+        return len(args)
+    if name == "cell":
+        return cell
+    raise InfraError("bad binding %r" % (name,))
+
+
+def fn_scalar_ok(v):
+    """A value a function column can hold and give back exactly (one numpy element; -0.0 included here:
+    nothing merges it with 0.0 on the way through `numpy.array([value] * n)`)."""
+    if v is None or isinstance(v, bool):
+        return True
+    if isinstance(v, int):
+        return -(2**63) <= v < 2**63
+    if isinstance(v, float):
+        return True
+    if isinstance(v, str):
+        return not v.endswith("\x00") and len(v) <= 64
+    return False
+
+
+def arg_ok(a, depth=0):
+    """A configuration argument: a scalar, or (unhashable) a list / dictionary of arguments."""
+    if isinstance(a, list):
+        return depth < 2 and len(a) <= 4 and all(arg_ok(x, depth + 1) for x in a)
+    if isinstance(a, dict):
+        return depth < 2 and len(a) <= 3 and all(isinstance(k, str) and not k.startswith("__") and arg_ok(x, depth + 1)
+                                                   for k, x in a.items())
+    return fn_scalar_ok(a)
+
+
+def binding_applicable(name, args, cell_set):
+    if name in ("repr", "count"):
+        return True
+    if name == "cell":
+        return cell_set
+    if not args:
+        return False
+    a = args[0]
+    if name == "kind":
+        return True
+    if name == "first":
+        return fn_scalar_ok(a) and not isinstance(a, (list, dict))
+    if name == "triple":
+        if isinstance(a, bool) or (isinstance(a, int) and abs(a) < 2**61) or isinstance(a, float):
+            return True
+        return isinstance(a, str) and len(a) <= 20 and not a.endswith("\x00")
+    return False
+
+
+def uses_resolved(case):
+    """[(object index, binding, args, length, cell, grow?)] per use with the `col` references resolved, or None
+    when the history is not well formed."""
+    uses = case.get("uses")
+    if not isinstance(uses, list) or not 1 <= len(uses) <= 200:
+        return None
+    state = {}  # use index that created the object -> [binding, args, length]
+    cell, cell_set = None, False
+    res = []
+    for k, u in enumerate(uses):
+        if not isinstance(u, dict) or not set(u) <= {"b", "cfg", "length", "col", "set", "grow"}:
+            return None
+        if "set" in u:
+            if not fn_scalar_ok(u["set"]):
+                return None
+            cell, cell_set = u["set"], True
+        if "col" in u:
+            o = u["col"]
+            if type(o) is not int or o not in state:
+                return None
+            cur = state[o]
+        else:
+            if not {"b", "cfg", "length"} <= set(u):
+                return None
+            o = k
+            cur = state[o] = [None, None, None]
+        if "b" in u:
+            if u["b"] not in BINDINGS:
+                return None
+            cur[0] = u["b"]
+        if "cfg" in u:
+            if not isinstance(u["cfg"], list) or len(u["cfg"]) > 4 or not all(arg_ok(a) for a in u["cfg"]):
+                return None
+            cur[1] = [_copy_arg(a) for a in u["cfg"]]
+        if "length" in u:
+            if type(u["length"]) is not int or not 0 <= u["length"] <= 300:
+                return None
+            cur[2] = u["length"]
+        if "grow" in u:
+            if not cur[1] or not isinstance(cur[1][0], list) or len(cur[1][0]) >= 8 or not fn_scalar_ok(u["grow"]):
+                return None
+            cur[1][0].append(u["grow"])
+        if not binding_applicable(cur[0], cur[1], cell_set):
+            return None
+        res.append((o, cur[0], [_copy_arg(a) for a in cur[1]], cur[2], cell, "grow" in u))
+    return res
+
+
+def _copy_arg(a):
+    if isinstance(a, list):
+        return [_copy_arg(x) for x in a]
+    if isinstance(a, dict):
+        return {k: _copy_arg(x) for k, x in a.items()}
+    return a
+
+
+def fresh_arg(a):
+    if isinstance(a, list):
+        return [fresh_arg(x) for x in a]
+    if isinstance(a, dict):
+        return {(k + " ")[:-1]: fresh_arg(x) for k, x in a.items()}
+    if isinstance(a, float) and a == 0:
+        return a  # (float.fromhex keeps the sign; nothing to do)
+    return fresh(a)
+
+
+def run_funcs(case):
+    """The history on the real class.  Bindings are fresh function objects per case (one per name: shared by
+    every column of the case that names it), so one case is one self-contained history."""
+    import numpy
+    from orso import schema
+
+    box = {"cell": None}
+    fns = {
+        "repr": lambda *a: repr(tuple(a)),
+        "first": lambda *a: a[0],
+        "triple": lambda *a: a[0] * 3,
+        "kind": lambda *a: type(a[0]).__name__,
+        "count": lambda *a: len(a),
+        "cell": lambda *a: box["cell"],
+    }
+    objs = {}
+    mats = []
+    at = "construct"
+    try:
+        with warnings.catch_warnings():
+            warnings.simplefilter("ignore")
+            for k, u in enumerate(case["uses"]):
+                at = "use %d" % k
+                if "set" in u:
+                    box["cell"] = fresh(u["set"])
+                if "col" in u:
+                    col = objs[u["col"]]
+                    if "b" in u:
+                        col.binding = fns[u["b"]]
+                    if "cfg" in u:
+                        col.configuration = tuple(fresh_arg(a) for a in u["cfg"])
+                    if "length" in u:
+                        col.length = u["length"]
+                else:
+                    col = objs[k] = schema.FunctionColumn(name="c%d" % k, binding=fns[u["b"]], length=u["length"],
+                                                          configuration=tuple(fresh_arg(a) for a in u["cfg"]))
+                if "grow" in u:
+                    col.configuration[0].append(fresh(u["grow"]))
+                m = col.materialize()
+                if not isinstance(m, numpy.ndarray):
+                    m = numpy.asarray(m)
+                if m.ndim != 1:
+                    mats.append({"mat": {"__repr__": "array of shape %r" % (m.shape,)}, "mkind": kind_of(m)})
+                else:
+                    mats.append({"mat": canon(m), "mkind": kind_of(m)})
+    except InfraError:
+        raise
+    except Exception as e:
+        return {"raised": type(e).__name__, "msg": str(e)[:120], "at": at, "mats": mats}
+    return {"mats": mats}
+
+
+def same_value(x, y):
+    """Exactly the value: same type, equal (NaN = NaN), same sign of zero."""
+    if type(x) is not type(y):
+        return False
+    if isinstance(x, float):
+        if x != x or y != y:
+            return x != x and y != y
+        return x == y and math.copysign(1, x) == math.copysign(1, y)
+    return x == y
+
+
+def oracle_funcs(case, out):
+    res = uses_resolved(case)
+    if res is None:
+        raise InfraError("not a well-formed family of function columns: %r" % (case,))
+    if "raised" in out:
+        return "function column raised %s :: at %s: %s" % (out["raised"], out.get("at"), out.get("msg"))
+    if len(out["mats"]) != len(res):
+        raise InfraError("%d expansions recorded for %d uses in %r" % (len(out["mats"]), len(res), case))
+    for k, ((o, b, args, n, cell, _), got) in enumerate(zip(res, out["mats"])):
+        want = bind_value(b, args, cell)
+        ys = got["mat"]
+        what = "use %d (%s, binding %s, configuration %r, length %d)" % (
+            k, "a new column" if o == k else "the column of use %d again" % o, b, tuple(args), n)
+        if not isinstance(ys, list) or len(ys) != n:
+            return "function column: the expansion has another length than the column :: %s expands to %s elements" % (
+                what, len(ys) if isinstance(ys, list) else ys)
+        for y in ys:
+            if not same_value(want, y):
+                return ("function column: the expansion is not the value of this column's binding for this column's configuration "
+                        ":: %s expands to %r (%s), the binding gives %r (%s)" % (what, y, type(y).__name__, want, type(want).__name__))
+    return None
+
+
+MODEL_BINDINGS = ("first", "triple", "kind", "count", "cell")  # (the Lean driver has no `repr` of floats)
+
+
+def family_model_line(res):
+    """The history for the Lean driver (op `family` runs `Enc.familyExpand`, which the theorem
+    `gen_function_family_independent` identifies with the translated FunctionColumn.materialize run on
+    every use), or None when a binding is outside the driver's."""
+    def small(a):
+        if isinstance(a, (list, tuple)):
+            return all(small(x) for x in a)
+        if isinstance(a, dict):
+            return all(small(x) for x in a.values())
+        return not is_nan(a)
+
+    if not all(b in MODEL_BINDINGS and small(args) and small(cell) for (_, b, args, _, cell, _) in res):
+        return None
+    return "C09 family " + wire.line([[b, list(args), n, cell] for (_, b, args, n, cell, _) in res])
+
+
+def valid_funcs(c):
+    return set(c) <= {"enc", "uses"} and uses_resolved(c) is not None
+
+
+# arguments in classes that `==` (or a hash, or a rendering as text) does not tell apart
+EQUAL_ARGS = (
+    (1, 1.0, True), (0, 0.0, -0.0, False), (2, 2.0), (2**53, 2.0**53, 2**53 + 1), (-1, -2), (1, "1"), ("a", "a "), (None, "None", 0),
+    ("", 0, False, None), ([1], [1.0], [True]), ([], [[]]), ({"k": 1}, {"k": 1.0}), ([0], [-0.0]), (NAN, NAN),
+)
+
+
+def _use(b, cfg, n=2, **more):
+    return dict({"b": b, "cfg": list(cfg), "length": n}, **more)
+
+
+def family_cases(deep=False):
+    """Histories of two or three expansions over one binding whose configurations come from one class of
+    look-alike arguments (every ordered pair, both as two column objects and as one object reassigned), over
+    two bindings with one configuration, with other lengths, longer configurations, a cell that changes."""
+    pure = ("repr", "first", "triple", "kind", "count")
+
+    def ok(c):
+        return valid_funcs(c)
+
+    for cls in EQUAL_ARGS:
+        for b in pure:
+            for x in cls:
+                for y in cls:
+                    for c in (
+                        {"enc": "funcs", "uses": [_use(b, [x]), _use(b, [y])]},
+                        {"enc": "funcs", "uses": [_use(b, [x], 1), {"col": 0, "cfg": [_copy_arg(y)]}]},
+                        {"enc": "funcs", "uses": [_use(b, [x], 3), _use(b, [y], 0), _use(b, [_copy_arg(x)], 1)]},
+                        {"enc": "funcs", "uses": [_use(b, [x, y], 1), _use(b, [y, x], 1)]},
+                        {"enc": "funcs", "uses": [_use(b, [x, x], 1), _use(b, [y], 1), _use(b, [y, y], 1)]},
+                    ):
+                        if ok(c):
+                            yield c
+                    if deep:
+                        for z in cls:
+                            c = {"enc": "funcs", "uses": [_use(b, [x]), _use(b, [y], 1), _use(b, [z], 3)]}
+                            if ok(c):
+                                yield c
+        # one configuration, two bindings (a memo that forgets the binding)
+        for x in cls:
+            for b1 in pure:
+                for b2 in pure:
+                    if b1 != b2:
+                        c = {"enc": "funcs", "uses": [_use(b1, [x]), _use(b2, [_copy_arg(x)])]}
+                        if ok(c):
+                            yield c
+                        c = {"enc": "funcs", "uses": [_use(b1, [x], 1), {"col": 0, "b": b2}]}
+                        if ok(c):
+                            yield c
+    # no arguments / the same expansion at other lengths / the same object expanded again
+    for b in ("repr", "count"):
+        yield {"enc": "funcs", "uses": [_use(b, [], 2), _use(b, [], 0), _use(b, [[]], 3), {"col": 0, "length": 5}]}
+    for n1 in (0, 1, 3):
+        for n2 in (0, 1, 3):
+            yield {"enc": "funcs", "uses": [_use("repr", [1], n1), _use("repr", [1], n2), {"col": 0}, {"col": 1, "length": n1}]}
+    # a binding that reads a cell: the value at the time of each expansion
+    for v1, v2 in ((1, 1.0), (1.0, 1), (True, 1), (0, False), (0.0, -0.0), ("a", "b"), (None, 0), (0, None), (1, 2), ("", "x")):
+        yield {"enc": "funcs", "uses": [_use("cell", [], 2, set=v1), {"col": 0, "set": v2}]}
+        yield {"enc": "funcs", "uses": [_use("cell", [7], 1, set=v1), _use("cell", [7], 2, set=v2), {"col": 0}]}
+        yield {"enc": "funcs", "uses": [_use("cell", [v1], 1, set=v1), _use("cell", [v2], 1), {"col": 0, "set": v2}]}
+    # an unhashable argument that is the same object with other content
+    for b in ("repr", "kind", "count"):
+        for g in (1, 1.0, None, "a"):
+            yield {"enc": "funcs", "uses": [_use(b, [[]], 1), {"col": 0, "grow": g}, {"col": 0, "grow": g}]}
+            yield {"enc": "funcs", "uses": [_use(b, [[1], 1], 2), _use(b, [[1.0], 1.0], 2), {"col": 0, "grow": g}, {"col": 1}]}
+    # more entries than any small memo holds, then the look-alikes of the first ones
+    for b, m in (("repr", 70), ("first", 6), ("triple", 130)):
+        yield {"enc": "funcs", "uses": [_use(b, [i], 1) for i in range(m)] + [_use(b, [float(i)], 1) for i in range(3)]
+               + [_use(b, [i], 2) for i in (0, 1, m - 1)]}
+
+
+def random_family(rng):
+    cls = rng.choice(EQUAL_ARGS)
+    pool = list(cls) + [rng.choice([0, 1, 1.0, "a", None, True, 2.5, -0.0])]
+    uses, objs = [], []
+    cell_set = False
+    for k in range(rng.randint(2, 6)):
+        u = {}
+        if rng.random() < 0.25:
+            u["set"] = rng.choice([1, 1.0, True, 0, 0.0, "a", None])
+            cell_set = True
+        b = rng.choice(BINDINGS if cell_set else BINDINGS[:-1])
+        cfg = [_copy_arg(rng.choice(pool)) for _ in range(rng.choice([0, 1, 1, 1, 2, 3]))]
+        if objs and rng.random() < 0.3:
+            u["col"] = rng.choice(objs)
+            r = rng.random()
+            if r < 0.5:
+                u["cfg"] = cfg
+            elif r < 0.7:
+                u["b"] = b
+            elif r < 0.85:
+                u["length"] = rng.randint(0, 4)
+        else:
+            u.update(b=b, cfg=cfg, length=rng.choice([0, 1, 1, 2, 3, 7]))
+            objs.append(k)
+        c = {"enc": "funcs", "uses": uses + [u]}
+        if valid_funcs(c):
+            uses.append(u)
+        elif "col" not in u:
+            objs.pop()
+    if not uses:
+        uses = [_use("repr", [1]), _use("repr", [1.0])]
+    return {"enc": "funcs", "uses": uses}
+
+
+def evaluate_families(ctx, cases):
+    ress = [uses_resolved(c) for c in cases]
+    lines = [family_model_line(r) for r in ress]
+    it = iter(ctx.model.batch([l for l in lines if l is not None]))
+    for c, r, l in zip(cases, ress, lines):
+        evaluate_funcs(ctx, c, r, next(it) if l is not None else None)
+
+
+def evaluate_funcs(ctx, c, res, text):
+    out = run_funcs(c)
+    ctx.case(c, len(res) >= 2)
+    ctx.hit("enc:funcs")
+    ctx.hit("family:uses:%s" % (len(res) if len(res) <= 3 else "4-6" if len(res) <= 6 else "7+"))
+    n_obj = len({r[0] for r in res})
+    ctx.hit("family:column-objects:%s" % (n_obj if n_obj <= 3 else "4+"))
+    ctx.hit("family:bindings:%d" % len({r[1] for r in res}))
+    for r in {r[1] for r in res}:
+        ctx.hit("family:binding:" + r)
+    if n_obj < len(res):
+        ctx.hit("family:object-expanded-again")
+    # how two configurations of one binding in the history relate
+    seen = {}
+    rel = set()
+    for (_, b, args, _, _, _) in res:
+        for prev in seen.get(b, []):
+            try:
+                eq = tuple(prev) == tuple(args)
+            except Exception:
+                eq = False
+            ident = repr(prev) == repr(args)
+            rel.add("identical" if ident else "equal-not-identical" if eq else "different")
+        seen.setdefault(b, []).append(args)
+        for a in args:
+            if isinstance(a, (list, dict)):
+                rel.add("unhashable-argument")
+    for r in sorted(rel):
+        ctx.hit("family:configurations:" + r)
+    if any(r[5] for r in res):
+        ctx.hit("family:argument-object-mutated")
+    if any(r[1] == "cell" for r in res):
+        ctx.hit("family:cell-binding")
+    if "raised" in out:
+        ctx.hit("raised:" + out["raised"])
+    clause = oracle_funcs(c, out)
+    if text is None:
+        ctx.hit("oracle-only")
+    else:
+        if not text.startswith("ok"):
+            raise InfraError("model rejected the family %r: %r" % (c, text))
+        m = {"mats": [{"mat": canon(x)} for x in wire.dec_all(text[2:])[0]]}
+        mc = oracle_funcs(c, m)
+        if mc is not None:
+            raise InfraError("the Lean model's own output violates the property on %r: %s (%r)" % (c, mc, m))
+        if clause is None and "raised" not in out and not all(wire.same(a["mat"], b["mat"]) for a, b in zip(out["mats"], m["mats"])):
+            ctx.disagree(c, out, m, what="expansions of a family of function columns")
+    if clause is None:
+        return
+    def still(c2):
+        if not valid_case(c2):
+            return False
+        try:
+            reset_impl()
+            return _norm(oracle_funcs(c2, run_funcs(c2))) == _norm(clause)
+        except InfraError:
+            return False
+
+    if already_reported(ctx, clause):
+        ctx.fail(c, _norm(clause), impl=out, model=None, detail=clause.split(" :: ")[1] if " :: " in clause else None)
+        return
+
+    def rerun(c2):
+        o = run_funcs(c2)
+        return o, oracle_funcs(c2, o)
+
+    r = on_clean_state(ctx, c, clause, out, rerun)
+    if r is None:
+        return
+    clause, out = r
+    c_min = shrink(c, still, budget=300) if not ctx.replaying else c
+    c_min, remark = standalone(ctx, c, c_min, clause)
+    o2 = run_funcs(c_min)
+    full = oracle_funcs(c_min, o2) or clause
+    detail = full.split(" :: ")[1] if " :: " in full else None
+    ctx.fail(c_min, _norm(full), impl=o2, model=None, detail=detail if remark is None else "%s [%s]" % (detail, remark))
+
+
+
 # --------------------------------------------------------------------------- evaluation
 
 
@@ -1021,7 +1632,17 @@ def k01_class(case):
         return False
     if "spec" in case or not isinstance(case.get("values"), list):
         return False
-    return any(isinstance(v, int) and not isinstance(v, bool) and abs(v) > 2**53 for v in case["values"])
+    # (the stored integers as they are at any point of the case's uses: a map may take them beyond 2**53)
+    cur = list(case["values"])
+    stages = [cur]
+    try:
+        for op in ops_of(case):
+            if isinstance(op, str) and (op.startswith("map:") or op == "imap:double"):
+                cur = [py_f("double" if op == "imap:double" else op[4:], x) for x in cur]
+                stages.append(cur)
+    except Exception:
+        pass
+    return any(isinstance(v, int) and not isinstance(v, bool) and abs(v) > 2**53 for st in stages for v in st)
 
 
 def is_big_int_float_default(case, failure=None):
@@ -1139,6 +1760,8 @@ def ctor_correspondence(ctx, c, out):
 
 
 def evaluate(ctx, cases):
+    evaluate_families(ctx, [c for c in cases if c["enc"] == "funcs"])
+    cases = [c for c in cases if c["enc"] != "funcs"]
     with_model = [has_model(c) for c in cases]
     it = iter(ctx.model.batch([model_line(c) for c, w in zip(cases, with_model) if w]))
     mouts = [next(it) if w else None for w in with_model]
@@ -1197,17 +1820,35 @@ def evaluate(ctx, cases):
                 if not valid_case(c2):
                     return False
                 try:
+                    reset_impl()
                     return _norm(oracle(c2, run_impl(c2))) == _norm(clause)
                 except InfraError:
                     return False
 
             # long inputs: each attempt costs a full encode / expand, keep the search short
             budget = 300 if len(xs) <= 2000 else 40
+            if already_reported(ctx, clause):
+                # (one replay per clause: further failing cases are only counted, or matched against the open findings)
+                ctx.fail(c, _norm(clause), impl=out, model=m, detail=clause.split(" :: ")[1] if " :: " in clause else None)
+                continue
+
+            def rerun(c2):
+                o = run_impl(c2)
+                return o, oracle(c2, o)
+
+            r = on_clean_state(ctx, c, clause, out, rerun)
+            if r is None:
+                continue
+            clause, out = r
             c_min = shrink(c, still, budget=budget) if not ctx.replaying else c
+            remark = None
+            if c["enc"] in ("const", "func") or len(xs) <= 2000:
+                c_min, remark = standalone(ctx, c, c_min, clause)
             o2 = run_impl(c_min)
             full = oracle(c_min, o2) or clause
+            detail = full.split(" :: ")[1] if " :: " in full else None
             ctx.fail(c_min, _norm(full), impl=o2, model=m if c_min is c else None,
-                     detail=full.split(" :: ")[1] if " :: " in full else None)
+                     detail=detail if remark is None else "%s [%s]" % (detail, remark))
         elif m is not None and not same_obs(out, m):
             ctx.disagree(c, out, m)
         elif "raised" not in out:
@@ -1261,6 +1902,9 @@ def op_sequences(f, f2, enc):
     yield ["mat", "mat"]
     yield ["decoy", "mat", "flat", "mat"]
     yield ["copy", "mat"]
+    yield ["schema", "mat"]
+    if enc != "func":
+        yield ["mat", "pickle", "mat"]
     for g in (f,) + tuple(f2):
         if g is None:
             continue
@@ -1632,7 +2276,7 @@ def random_variant(rng, c, kind):
         for _ in range(rng.randint(1, 4)):
             q = rng.random()
             ops.append("mat" if q < 0.4 else "map:" + rng.choice(RANDOM_FUNCS[kind] + ("id", "invert", "tostr", "toint")) if q < 0.8
-                       else rng.choice(["decoy", "flat", "copy", "imap:double"] + (["len:%d" % rng.randint(0, 9)] if c["enc"] in ("const", "func") else [])))
+                       else rng.choice(["decoy", "flat", "copy", "schema", "pickle", "imap:double"] + (["len:%d" % rng.randint(0, 9)] if c["enc"] in ("const", "func") else [])))
         c = dict(base, ops=ops + ["mat"])
         # drop the ops that are not applicable where they stand
         while not valid_case(c) and len(c["ops"]) > 1:
@@ -1784,6 +2428,9 @@ def run(ctx):
     core_n, nmax, nmax_map = ctx.scale((3, 5, 4), (4, 6, 5))
     nseq, nnarrow = ctx.scale((2, 2), (4, 3))
     scope("boundary-small", boundary_cases(large=False))
+    # (before the single-column scopes: a value leaking from one function column into another is met here
+    # first, inside one self-contained history, so the replay reproduces in a fresh process)
+    scope("function-families", family_cases(deep=ctx.scale(False, True)))
     scope("scalars", scalar_cases())
     scope("declared-types", declared_cases())
     for n in range(core_n + 1):
@@ -1819,6 +2466,13 @@ def run(ctx):
              "the shared constructor (precision, scale, element_type, nullable, description, aliases, default), built directly and "
              "through from_dict; RLE / dictionary / sparse columns declared by name with the flat-column keyword length (= text "
              "width); deep copies" % (["", "a", "abcd", "b''", "b'abc'", 0, 7, 1.5, True, None],))
+    ctx.note("family_scope", "histories of 1..200 expansions of function columns that share bindings (%s; `cell` reads a cell "
+             "that changes between expansions) and configurations: every ordered pair of configurations from each class of look-alike "
+             "arguments %r as two column objects / one object reassigned / with other lengths / as argument pairs in both orders / "
+             "repeated arguments; one configuration under two bindings; the same object expanded again; an unhashable argument "
+             "mutated in place; 70 / 130 distinct configurations followed by their float look-alikes; every expansion judged "
+             "against this column's binding on this column's configuration at that moment (same type, same sign of zero)"
+             % (list(BINDINGS), [list(c) for c in EQUAL_ARGS]))
     ctx.note("unusual_scope", "every sequence of length 0..%d over %r (subnormal next to zero, neighbouring doubles, both infinities, "
              "1e308) and of length 0..%d over %r (trailing / leading blank, case, composed vs combining accent, inner NUL, sharp s, "
              "CJK, astral, tab, newline) through RLE, dictionary and sparse columns; hash-colliding integers %r likewise; text ending "
@@ -1827,20 +2481,22 @@ def run(ctx):
     done = 0
     while done < n_random and (ctx.time_left() > 4 or ctx.replaying):
         k = min(500, n_random - done)
-        evaluate(ctx, [random_case(ctx, big=(i % 97 == 0)) for i in range(k)])
+        evaluate(ctx, [random_family(ctx.rng) if i % 16 == 5 else random_case(ctx, big=(i % 97 == 0)) for i in range(k)])
         done += k
     if done < n_random:
         cut.append({"scope": "random", "cases_evaluated_before_the_cut": done, "planned": n_random})
     ctx.note("random_cases", done)
     # (empty when every enumeration ran to its end)
     ctx.note("exhaustive_cut_short", cut)
+    flush_pending(ctx)
 
 
 def intensify(ctx):
     for _ in range(10):
         if ctx.time_left() < 5:
             break
-        evaluate(ctx, [random_case(ctx) for _ in range(2000)])
+        evaluate(ctx, [random_family(ctx.rng) if i % 16 == 5 else random_case(ctx) for i in range(2000)])
+    flush_pending(ctx)
 
 
 def replay(ctx, case):
